@@ -1070,9 +1070,79 @@ impl Visitor<Diagnostic> for LibraryRenderer {
         self.write_ws(":");
         self.visit_id(&node.type_name)?;
 
+        if !(node.fb_tasks.is_empty() && node.sources.is_empty() && node.sinks.is_empty()) {
+            self.write_ws("(");
+            let mut first = true;
+            for fb_task in node.fb_tasks.iter() {
+                if !first {
+                    self.write_ws(",");
+                }
+                first = false;
+                self.visit_id(&fb_task.fb_name)?;
+                self.write_ws("WITH");
+                self.visit_id(&fb_task.task_name)?;
+            }
+            for source in node.sources.iter() {
+                if !first {
+                    self.write_ws(",");
+                }
+                first = false;
+                self.visit_symbolic_variable_kind(&source.dst)?;
+                self.write_ws(":=");
+                match &source.src {
+                    dsl::configuration::ProgramConnectionSourceKind::Constant(node) => {
+                        self.visit_constant_kind(node)?
+                    }
+                    dsl::configuration::ProgramConnectionSourceKind::EnumeratedValue(node) => {
+                        self.visit_enumerated_value(node)?
+                    }
+                    dsl::configuration::ProgramConnectionSourceKind::GlobalVarReference(node) => {
+                        self.visit_global_var_reference(node)?
+                    }
+                    dsl::configuration::ProgramConnectionSourceKind::DirectVariable(node) => {
+                        self.visit_address_assignment(node)?
+                    }
+                }
+            }
+            for sink in node.sinks.iter() {
+                if !first {
+                    self.write_ws(",");
+                }
+                first = false;
+                self.visit_symbolic_variable_kind(&sink.src)?;
+                self.write_ws("=>");
+                match &sink.dst {
+                    dsl::configuration::ProgramConnectionSinkKind::GlobalVarReference(node) => {
+                        self.visit_global_var_reference(node)?
+                    }
+                    dsl::configuration::ProgramConnectionSinkKind::DirectVariable(node) => {
+                        self.visit_address_assignment(node)?
+                    }
+                }
+            }
+            self.write_ws(")");
+        }
+
         self.write_ws(";");
         self.newline();
 
+        Ok(())
+    }
+
+    // 2.7.2
+    fn visit_global_var_reference(
+        &mut self,
+        node: &dsl::configuration::GlobalVarReference,
+    ) -> Result<Self::Value, Diagnostic> {
+        let mut names: Vec<&str> = Vec::new();
+        if let Some(resource_name) = &node.resource_name {
+            names.push(resource_name.original());
+        }
+        names.push(node.global_var_name.original());
+        if let Some(element_name) = &node.structure_element_name {
+            names.push(element_name.original());
+        }
+        self.write_ws(names.join(".").as_str());
         Ok(())
     }
 
